@@ -209,6 +209,25 @@ kproof! {
     }
 }
 
+// @obl props=C17 tier=quick class=bounded fn=core::TracingSecretKey::generate_user_id shape="3 tracers (tracing level 2), all scalars symbolic over the toy field Z_13"
+kproof! {
+    #[kani::unwind(8)]
+    fn tsk__generate_user_id_relation_level2() {
+        let mut rng = SymRng;
+        let (s, t0, t1, t2): (u8, u8, u8, u8) = (any_fe(), any_fe(), any_fe(), any_fe());
+        kani::assume(t2 != 0);
+        let mut tsk = mk_tsk(s, &[t0, t1, t2]);
+        let id = ok_or_forget(tsk.generate_user_id(&mut rng)).unwrap();
+        let mut it = id.0.iter();
+        let (a0, a1, a2) = (it.next().unwrap().0, it.next().unwrap().0, it.next().unwrap().0);
+        assert!(it.next().is_none(), "C17: one marker per tracer");
+        assert!(addp(addp(mulp(a0, t0), mulp(a1, t1)), mulp(a2, t2)) == s, "C17: sum of marker_i * tracer_i equals the binding scalar at tracing level 2 (each marker paired with ITS tracer)");
+        assert!(tsk.is_known(&id) && tsk._validate_user_id(&id), "C17: the identifier is recorded and validates");
+        std::mem::forget(tsk);
+        std::mem::forget(id);
+    }
+}
+
 // @obl props=C17,C09 tier=quick class=bounded fn=core::TracingSecretKey::refresh_id shape="2 tracers; known id of same level / unknown id"
 kproof! {
     #[kani::unwind(8)]
